@@ -42,7 +42,7 @@ IMPLEMENTED = {
             'Seeded search over creation/use/exit orders of foreign threads interleaved with Python-thread callbacks and GC; checks valid thread identity, persistence of threading.local data per foreign thread, no leak of thread-local data or thread states into later threads, and survival of the process (including at interpreter shutdown with zombies or live threads).',
             'Only one OS thread executes Python/cffi code at any instant (GIL build); both USE__THREAD build variants; process-wide thread-state bookkeeping makes runs history dependent (replays carry their prelude).'),
     'C22': ('P', 'exploration', 'DESIGN.md 3.3',
-            'deterministic simulation: seeded baton scheduler over real Python threads (and a foreign pthread) running errno traffic through every call path, with switch points between operations and inside callback bodies (i.e. while a thread is inside C between errno restore and errno save), plus pairs of foreign threads held at a gate right before they acquire the GIL so that both are past the callback entry before either holds it, and C callers that hold the GIL themselves; one-integer-per-thread reference model checked at every observation; both USE__THREAD build variants',
+            'deterministic simulation: seeded baton scheduler over real Python threads (and a foreign pthread) running errno traffic through every call path, with switch points between operations and inside callback bodies (i.e. while a thread is inside C between errno restore and errno save), plus pairs of foreign threads held at a gate right before they acquire the GIL so that both are past the callback entry before either holds it, and C callers that hold the GIL themselves; a second phase under engine C (the start-up simulator of C28) observes the errno with which cffi_call_python is entered on calls into an embedded library; one-integer-per-thread reference model checked at every observation; both USE__THREAD build variants',
             'Seeded search over interleavings of per-thread errno operations across all call-out and call-in paths; any cross-thread leak or lost save/restore shows up as a mismatch between an observation and the thread\'s own model value.',
             'Values are only asserted where cffi promises them (what C sees right after restore, what ffi.errno returns right after save); sequentially consistent switching at explicit points only.'),
     'C16': ('H', 'exploration', 'DESIGN.md 3.11',
